@@ -51,6 +51,11 @@ def build(spec):
         return hostile(spec[1])
     if t == 'R':
         return Record(spec[1])
+    if t == 'T':
+        import builtins
+        return getattr(builtins, spec[1])           # a class object (list, dict, str ...) passed as an argument (a factory / a kind)
+    if t == 'Y':
+        return Sized(spec[1])
     if t == 'N':
         return Pair(*[build(x) for x in spec[1]])
     if t == 'G':
@@ -135,6 +140,27 @@ class BadHashRuntime(object):
 
 import collections as _collections
 Pair = _collections.namedtuple('Pair', 'x y')       # a tuple subclass that cannot be built from ONE sequence argument
+
+
+class Sized(object):
+    """has a length but cannot be iterated"""
+    def __init__(self, n):
+        self.n = n
+
+    def __len__(self):
+        return self.n
+
+    def __repr__(self):
+        return 'Sized(%d)' % self.n
+
+    def __eq__(self, other):
+        return isinstance(other, Sized) and other.n == self.n
+
+    def __ne__(self, other):
+        return not self.__eq__(other)
+
+    def __hash__(self):
+        return hash(('Sized', self.n))
 
 
 class Record(object):
